@@ -83,3 +83,13 @@ def Rel (p : Profile) (g : Graph) (sC : St Store) (sU : St Unit) : Prop :=
   DevRel sC.dev sU.dev ∧ Inv p g sC.cache sC.dev
 
 end CamVerif.C04
+
+namespace CamVerif.C04
+open CamVerif CamVerif.Cache
+
+/-- No cache entry belongs to a `NoCache` register.  Holds for the freshly built store and is
+preserved by every operation on every description (no `Declared` needed). -/
+def NoCacheAbsent (g : Graph) (c : Store) : Prop :=
+  ∀ n r, g[n]? = some (.reg r) → r.mode = .noCache → ∀ a l, c.get n a l = none
+
+end CamVerif.C04
